@@ -22,8 +22,8 @@ def menu_fn(w):
 
 def c10_universe(tier):
     if tier == "thorough":
-        return dict(pids=["a", "ab", "b"], contents=[b"x", b"0123456789ab"], formats=[None, "c"])
-    return dict(pids=["a", "ab"], contents=[b"x", b"0123456789ab"], formats=[None, "c"], sym_dirs=False)
+        return dict(pids=[P_A, P_AB, "b"], contents=[C_ONE, C_MULTI], formats=[None, "c"])
+    return dict(pids=[P_A, P_AB], contents=[C_ONE, C_MULTI], formats=[None, "c"], sym_dirs=False)
 
 
 def fold(run, results, prefix, w_args):
@@ -75,5 +75,6 @@ def main(tier, replay_payload=None):
                        "list after a crash inside its in-place rewrite are recorded as observations.")
     run.outside = ["double crashes, crashes during recovery", "torn single write(2), power-loss reordering"]
     run.need("crash at a rename reached", any(k.startswith("crash at rename") for k in run.reach))
-    run.need("crash inside the list rewrite reached", any(k.startswith("crash at truncate") for k in run.reach))
+    run.need("crash at the replacement of a reference list reached",
+             any(k.startswith("crash at rename of cid-list") or k.startswith("crash at truncate") for k in run.reach))
     return run.finish()
